@@ -27,6 +27,8 @@ type urlIn struct {
 	Hdr     [][2]string `json:"hdr"`
 	WS      bool        `json:"ws"` // send "Upgrade: websocket" (fabio's websocket path)
 	Body    string      `json:"body"`
+	Cfg     pcfg        `json:"cfg"`  // proxy configuration beside the route: must not matter (request-id header apart)
+	Gzip    bool        `json:"gzip"` // proxy.gzip.contenttype configured: the gzip handler wraps the chosen handler
 }
 
 type urlOut struct {
@@ -156,12 +158,19 @@ func runURL(raw json.RawMessage) (interface{}, error) {
 	if err != nil {
 		return nil, err
 	}
+	if err := in.Cfg.check(); err != nil {
+		return nil, err
+	}
+	cfg := config.Proxy{}
+	if in.Gzip {
+		cfg.GZIPContentTypes = gzipTypes
+	}
 	e := getEnv()
 	// An exchange that breaks off is tried again (the websocket handler gives the upstream one second for the
 	// handshake, which a loaded machine can miss); an error that persists is reported.
 	var resp *clientResp
 	for attempt := 0; attempt < 3; attempt++ {
-		if err = e.install(config.Proxy{}, cmd, nil); err != nil {
+		if err = e.installCfg(cfg, in.Cfg, cmd, nil, nil); err != nil {
 			return nil, err
 		}
 		if resp, err = e.roundTrip(in.Method, req, false); err == nil {
@@ -181,15 +190,39 @@ var (
 	uPrepends = []string{"", "", "", "/p", "/p/", "p", "/p%20q", "/p!q", "/\u00e9"}
 	uHostOpts = []string{"", "", "", "dst", "other.example", "other.example:8080"}
 	uTQs      = []string{"", "", "", "t=1", "t=1&u=2", "a%20b", "&", "t"}
-	uQueries  = []string{"", "", "x=1", "x=1&y=2", "a%20b=%2F", "a+b", "&", "x=%zz", "?x", "x=\u00e9"}
+	uQueries  = []string{"", "", "x=1", "x=1&y=2", "a%20b=%2F", "a+b", "&", "x=%zz", "?x", "x=\u00e9", "b=2;c=3&a=1", "a=1&a=0&%41=2", "b=100%&a=1", ";", "z&y=&=x"}
 	uMethods  = []string{"GET", "GET", "GET", "POST", "PUT", "DELETE", "HEAD", "PATCH", "OPTIONS", "FOO", "get"}
 	uHosts    = []string{"example.com", "example.com", "example.com:8080", "EXAMPLE.com", "a.b", "127.0.0.1", "[::1]:80"}
 	uSegs     = []string{"a", "b", "s", "st", "a%2Fb", "a%2fb", "%41", "a%20b", "a!b", "(x)", "a+b", "a;b=c", "a:b", "@", "a,b", "a=b",
 		"%e2%82%ac", "%E9", "%25", "%2525", "%3F", "%23", "a%b", "~", "-._", "*", "a'b", "[x]", "$", "&", ".", ".."}
 	uHdrNames = []string{"X-Custom", "x-custom", "Accept", "Accept-Encoding", "User-Agent", "Cookie", "Cookie", "Authorization", "Content-Type",
 		"X-A", "X-B", "Cache-Control", "Range", "If-None-Match", "Referer", "TE", "Keep-Alive", "Connection", "Proxy-Connection", "Proxy-Authorization", "Via", "X_Under"}
-	uHdrVals = []string{"1", "a, b", "x=y; z=w", "text/html", "gzip", "identity", "", "trailers", "close", "X-A", "x-b, keep-alive", "bytes=0-1", "W/\"x\"", "Basic dTpw", "ua/1.0"}
+	uHdrVals = []string{"1", "a, b", "x=y; z=w", "text/html", "gzip", "identity", "", "trailers", "close", "X-A", "x-b, keep-alive", "bytes=0-1", "W/\"x\"", "Basic dTpw", "ua/1.0",
+		"text/event-stream", "application/x-www-form-urlencoded", "multipart/form-data; boundary=b"}
+	// span-name templates: every documented field, a static name, one that fails to execute, one that fails to parse
+	uSpans  = []string{"{{.Method}} {{.Path}}", "{{.Proto}} {{.Scheme}}://{{.Host}}{{.Path}}?{{.RawQuery}}", "static", "{{.Nope}}", "{{"}
+	uReqIDs = []string{"X-Request-Id", "X-Request-Id", "x-a"}
 )
+
+// genCfg: most cases run with the zero configuration, the rest switch on one or several of the optional stages.
+func genCfg(r *hx.Rand) pcfg {
+	var c pcfg
+	if r.Chance(1, 2) {
+		return c
+	}
+	if r.Chance(1, 2) {
+		c.Span = r.Pick(uSpans)
+	}
+	if r.Chance(1, 3) {
+		c.ReqID = r.Pick(uReqIDs)
+	}
+	c.Log = r.Chance(1, 3)
+	c.Stats = r.Chance(1, 3)
+	if r.Chance(1, 4) {
+		c.Flush = r.Range(1, 50)
+	}
+	return c
+}
 
 func genPath(r *hx.Rand) string {
 	var b strings.Builder
@@ -241,6 +274,8 @@ func genURL(r *hx.Rand, i int) interface{} {
 	for n := r.Intn(5); n > 0; n-- {
 		in.Hdr = append(in.Hdr, [2]string{r.Pick(uHdrNames), r.Pick(uHdrVals)})
 	}
+	in.Cfg = genCfg(r)
+	in.Gzip = r.Chance(1, 4)
 	if r.Chance(1, 6) {
 		in.WS = true
 		in.Method = "GET"
@@ -275,6 +310,14 @@ func init() {
 			urlIn{Method: "GET", Path: "/a", HasQ: true, Host: "example.com", WS: true},
 			urlIn{Method: "GET", Path: "/a", Host: "example.com", Hdr: [][2]string{{"Connection", "X-A"}, {"X-A", "1"}, {"X-B", "2"}}},
 			urlIn{Method: "GET", Path: "/a%zz", Host: "example.com"},
+			// optional stages of ServeHTTP switched on: a query net/url's form parser would reject or rewrite, a form body
+			urlIn{Method: "GET", Path: "/a", HasQ: true, Query: "b=2;c=3&a=1", Host: "example.com", Cfg: pcfg{Span: "{{.Method}} {{.Path}}"}},
+			urlIn{Method: "GET", Path: "/a", HasQ: true, Query: "b=100%&a=1", Host: "example.com", Cfg: pcfg{Span: "static", Log: true, Stats: true}},
+			urlIn{Method: "POST", Path: "/a", Host: "example.com", Hdr: [][2]string{{"Content-Type", "application/x-www-form-urlencoded"}}, Body: "a=1&b=2",
+				Cfg: pcfg{Span: "{{.Proto}} {{.Scheme}}://{{.Host}}{{.Path}}?{{.RawQuery}}", ReqID: "X-Request-Id", Log: true}},
+			urlIn{Method: "GET", Path: "/a", Host: "example.com", Hdr: [][2]string{{"X-A", "mine"}}, Cfg: pcfg{ReqID: "x-a"}},
+			urlIn{Method: "GET", Path: "/ws/a", Host: "example.com", WS: true, Gzip: true, Hdr: [][2]string{{"Accept-Encoding", "gzip"}}, Cfg: pcfg{Span: "{{", ReqID: "X-Request-Id", Log: true, Stats: true, Flush: 5}},
+			urlIn{Method: "GET", Path: "/sse", Host: "example.com", Gzip: true, Hdr: [][2]string{{"Accept", "text/event-stream"}, {"Accept-Encoding", "gzip"}}, Cfg: pcfg{Flush: 5}},
 		},
 		Gen: genURL,
 		Run: runURL,
